@@ -450,9 +450,13 @@ func newWSPeer() *wsPeer {
 		p.mu.Unlock()
 		p.conns <- pc
 		for {
-			if atomic.LoadInt32(&pc.stopRead) != 0 {
-				<-p.stallCh
-				return
+			for atomic.LoadInt32(&pc.stopRead) != 0 { // stalled until the flag is cleared (or the peer shuts down)
+				select {
+				case <-p.stallCh:
+					return
+				default:
+					time.Sleep(10 * time.Millisecond)
+				}
 			}
 			t, data, err := c.ReadMessage()
 			if err != nil {
